@@ -97,9 +97,13 @@ pub mod iter {
                     };
                     match item {
                         Some(item) => {
+                            // a worker can be preempted between taking an item and starting on
+                            // it, and again before it comes back for the next one
+                            shuttle::thread::sleep(std::time::Duration::from_millis(0));
                             if !consumer(item) {
                                 stop.store(true, Ordering::SeqCst);
                             }
+                            shuttle::thread::sleep(std::time::Duration::from_millis(0));
                         }
                         None => break,
                     }
